@@ -1,6 +1,15 @@
 //! Correspondence harness: runs the REAL Glonax code in-process and writes one line per case
 //! (`<prop> <input tokens> => <observed output tokens>`) for the Lean model driver.
 mod util;
+#[allow(dead_code)]
+#[path = "/repo/glonax-input/src/input.rs"]
+mod input;
+#[allow(dead_code)]
+#[path = "/repo/glonax-input/src/joystick.rs"]
+mod joystick;
+#[allow(dead_code)]
+#[path = "/repo/glonax-input/src/gamepad.rs"]
+mod gamepad;
 mod fmt;
 mod bus;
 mod c01;
@@ -16,6 +25,7 @@ mod c09;
 mod drv;
 pub mod c13;
 mod c17;
+mod c18;
 
 use util::*;
 
@@ -47,6 +57,7 @@ fn main() {
         "C12" => drv::run_c12,
         "C13" => c13::run,
         "C17" => c17::run,
+        "C18" => c18::run,
         _ => {
             eprintln!("unknown property {}", prop);
             std::process::exit(2);
